@@ -387,6 +387,12 @@ def _nt_fields(nts, t):
         return None
     fields = nts[t[1][1]]
     vals = list(t[2])
+    if len(vals) == 1 and vals[0][:2] == ("uop", "*") and not t[3]:
+        # Record(*f(x)): field i is component i of the computed tuple (as `a, b, c = f(x)` reads it)
+        whole = vals[0][2]
+        if whole[:1] == ("tuple",) and len(whole[1]) == len(fields):
+            return fields, tuple(whole[1])
+        return fields, tuple(("item", whole, i) for i in range(len(fields)))
     if any(v[:1] == ("uop",) for v in vals) or len(vals) > len(fields):
         return None
     kw = dict(t[3])
